@@ -403,7 +403,10 @@ def _r3_leaves(run):
             # no store into header[<key>] visible: either it is really gone, or it happens in a form the evaluator does not
             # follow (a loop over a computed table, a helper in another module)
             keyed = [e for e in r.events if e.kind == "store" and e.term[1][0][0] == "sub" and e.term[1][0][2][0] != "const"]
-            if keyed or any(isinstance(x, ast.Constant) and x.value == key for g_ in project.functions_in(IMG) for x in ast.walk(g_.node)):
+            if keyed or any(isinstance(x, ast.Constant) and x.value == key for g_ in project.py_funcs() if "/tests/" not in g_.module.relpath
+                            for x in ast.walk(g_.node)) or any(
+                    isinstance(x, ast.Constant) and x.value == key for m_ in project.modules.values() if "/tests/" not in m_.relpath and m_.kind == "py"
+                    for x in ast.walk(m_.tree)):
                 undecided_keys.append(key)
             else:
                 bad.append((None, "%s is never written" % key))
